@@ -1620,6 +1620,112 @@ def unroll_literal_tables(index):
     return done
 
 
+# ---- temporaries used once, in the next statement --------------------------------------------------------------------------------
+def inline_single_use_temporaries(index):
+    """`t = E` followed immediately by a statement that reads `t` exactly once -- in its own header or expression, not inside a
+    loop body, comprehension or lambda of that statement -- with `t` occurring nowhere else in the function, and E free of mutating
+    calls: the statement with E in place of `t`."""
+    import copy
+    done = {}
+    BAD_CALLS = set(_MUTATORS) | {"freeze", "assign", "insert", "next", "send"}
+
+    def header_nodes(st):
+        """Expression nodes of a statement that are evaluated once when the statement is reached (not its nested blocks)."""
+        if isinstance(st, (ast.If, ast.While)):
+            roots = [st.test] if isinstance(st, ast.If) else []
+        elif isinstance(st, (ast.For, ast.AsyncFor)):
+            roots = [st.iter]
+        elif isinstance(st, (ast.With, ast.AsyncWith)):
+            roots = [i.context_expr for i in st.items]
+        elif isinstance(st, (ast.FunctionDef, ast.AsyncFunctionDef, ast.ClassDef, ast.Try)):
+            roots = []
+        else:
+            roots = [st]
+        out = []
+        for r in roots:
+            stack = [r]
+            while stack:
+                n = stack.pop()
+                out.append(n)
+                for ch in ast.iter_child_nodes(n):
+                    if isinstance(ch, (ast.Lambda, ast.ListComp, ast.SetComp, ast.DictComp, ast.GeneratorExp)):
+                        continue
+                    if isinstance(n, ast.BoolOp) and ch is not n.values[0]:
+                        continue                        # evaluated conditionally
+                    if isinstance(n, ast.IfExp) and ch is not n.test:
+                        continue
+                    stack.append(ch)
+        return out
+
+    def rewrite(stmts, f, counts):
+        k = 0
+        i = 0
+        while i + 1 < len(stmts):
+            a, b = stmts[i], stmts[i + 1]
+            for st in (a,):
+                for fld in ("body", "orelse", "finalbody"):
+                    blk = getattr(st, fld, None)
+                    if isinstance(blk, list) and blk and isinstance(blk[0], ast.stmt) and not isinstance(st, (ast.FunctionDef, ast.ClassDef)):
+                        k += rewrite(blk, f, counts)
+            if isinstance(a, ast.Assign) and len(a.targets) == 1 and isinstance(a.targets[0], ast.Name) and counts.get(a.targets[0].id) == (1, 1):
+                name = a.targets[0].id
+                uses = [n for n in header_nodes(b) if isinstance(n, ast.Name) and n.id == name and isinstance(n.ctx, ast.Load)]
+                impure = any(isinstance(x, (ast.Yield, ast.YieldFrom, ast.Await, ast.NamedExpr)) or
+                             (isinstance(x, ast.Call) and isinstance(x.func, ast.Attribute) and x.func.attr in BAD_CALLS) or
+                             (isinstance(x, ast.Call) and isinstance(x.func, ast.Name) and x.func.id in ("Signal", "Module", "next", "iter"))
+                             for x in ast.walk(a.value))
+                # values built by comprehensions have their own later desugarings (sum / extend / yield from): they keep their statement
+                comp = isinstance(a.value, (ast.ListComp, ast.DictComp, ast.SetComp, ast.GeneratorExp)) or (
+                    isinstance(a.value, ast.Call) and any(isinstance(x, (ast.ListComp, ast.DictComp, ast.SetComp, ast.GeneratorExp))
+                                                          for x in list(a.value.args) + [k_.value for k_ in a.value.keywords]))
+                if len(uses) == 1 and not impure and not comp and not isinstance(a.value, (ast.List, ast.Dict, ast.Set)):
+                    u = uses[0]
+
+                    class R(ast.NodeTransformer):
+                        def visit_Name(self, n):
+                            if n is u:
+                                return ast.copy_location(copy.deepcopy(a.value), n)
+                            return n
+                    if isinstance(b, (ast.If, ast.While)):
+                        b.test = R().visit(b.test)
+                    elif isinstance(b, (ast.For, ast.AsyncFor)):
+                        b.iter = R().visit(b.iter)
+                    elif isinstance(b, (ast.With, ast.AsyncWith)):
+                        for it in b.items:
+                            it.context_expr = R().visit(it.context_expr)
+                    else:
+                        stmts[i + 1] = R().visit(b)
+                    del stmts[i]
+                    k += 1
+                    continue
+            i += 1
+        if stmts:
+            st = stmts[-1]
+            for fld in ("body", "orelse", "finalbody"):
+                blk = getattr(st, fld, None)
+                if isinstance(blk, list) and blk and isinstance(blk[0], ast.stmt) and not isinstance(st, (ast.FunctionDef, ast.ClassDef)):
+                    k += rewrite(blk, f, counts)
+            if isinstance(st, ast.Try):
+                for h in st.handlers:
+                    k += rewrite(h.body, f, counts)
+        return k
+    for f in index.all_functions():
+        stores, loads = {}, {}
+        for n in ast.walk(f.node):
+            if isinstance(n, ast.Name):
+                d = stores if isinstance(n.ctx, (ast.Store, ast.Del)) else loads
+                d[n.id] = d.get(n.id, 0) + 1
+        counts = {nm: (stores.get(nm, 0), loads.get(nm, 0)) for nm in stores}
+        for nm in list(counts):
+            if nm in f.params:
+                counts.pop(nm)
+        k = rewrite(f.node.body, f, counts)
+        if k:
+            ast.fix_missing_locations(f.node)
+            done[f.site] = k
+    return done
+
+
 # ---- local names for attributes of the instance -----------------------------------------------------------------------------------
 def inline_attribute_aliases(index):
     """`x = self.a.b` at the top level of a method body, `x` bound nowhere else, and neither `self.a` nor `self.a.b` rebound in the
